@@ -35,7 +35,7 @@ STEP_CAP = 20000
 
 def budget(tier):
     if tier == "quick":
-        return dict(runs=24000, wall=75, chunk=150)
+        return dict(runs=120000, wall=75, chunk=300)
     return dict(runs=900000, wall=840, chunk=400)
 
 
@@ -87,13 +87,50 @@ _setup = {}
 
 
 def _install():
+    """Compile _rwlock.py from the working tree once; enable INSTRUCTION
+    events on its code objects.  The module is re-executed for every run with
+    `threading` replaced by the shim *at import time*, so that locks created
+    at import (default arguments, module globals) are simulated and fresh."""
     if not _setup:
-        lib = core.lib()
-        import ecdsa._rwlock as rw
-        sched.install(instr_modules=[rw])
-        _setup["rw"] = rw
-        _setup["real_threading"] = rw.threading
-    return _setup["rw"]
+        import os
+        import sys
+        import threading as real_threading
+        core.lib()
+        path = os.path.join(core.REPO, "src", "ecdsa", "_rwlock.py")
+        with open(path) as f:
+            src = f.read()
+        code = compile(src, path, "exec")
+        cos = []
+
+        def walk(co):
+            cos.append(co)
+            for c in co.co_consts:
+                if hasattr(c, "co_code"):
+                    walk(c)
+        walk(code)
+        mon = sched._mon
+        sched.install()
+        for co in cos:
+            ev = mon.get_local_events(sched.TOOL, co) | mon.events.INSTRUCTION
+            mon.set_local_events(sched.TOOL, co, ev)
+            sched._state["instr_codes"].add(co)
+        _setup.update(code=code, path=path, real=real_threading)
+    return _setup
+
+
+def fresh_module():
+    import sys
+    st = _install()
+    shim = sched.ThreadingShim(st["real"])
+    ns = dict(__name__="ecdsa._rwlock", __package__="ecdsa",
+              __file__=st["path"], __builtins__=__builtins__)
+    saved = sys.modules["threading"]
+    sys.modules["threading"] = shim
+    try:
+        exec(st["code"], ns)
+    finally:
+        sys.modules["threading"] = saved
+    return ns
 
 
 class Monitor(object):
@@ -130,20 +167,21 @@ class Monitor(object):
 
 
 def execute(prog):
-    rw = _install()
     out = core.new_outcome()
     sched.SimLock._count = 0
-    shim = sched.ThreadingShim(_setup["real_threading"])
-    rw.threading = shim
     try:
-        return _execute(prog, rw, out)
-    finally:
-        rw.threading = _setup["real_threading"]
+        rw = fresh_module()
+    except Exception as e:
+        out["violation"] = core.violation(
+            ID, "exception", "import-" + type(e).__name__,
+            "executing _rwlock.py raised %r" % (e,))
+        return out
+    return _execute(prog, rw, out)
 
 
 def _execute(prog, rw, out):
     try:
-        lock = rw.RWLock()
+        lock = rw["RWLock"]()
         for ch in prog.get("warmup", "none"):
             if ch == "w":
                 lock.writer_acquire()
@@ -166,7 +204,7 @@ def _execute(prog, rw, out):
     barrier.name = "barrier"
     arrived = [0]
     errors = []
-    locks = _find_locks(lock)
+    locks = _find_locks(lock, rw)
 
     def snap():
         mon.states.add("%d|%d|%s" % (
@@ -280,23 +318,42 @@ def _execute(prog, rw, out):
     return out
 
 
-def _find_locks(lock):
-    """The simulated mutexes reachable from the lock object, in creation
-    order (names are lock1.. per run)."""
+def _find_locks(lock, ns):
+    """The simulated mutexes reachable from the lock object (and from the
+    module's classes / globals), by creation order (names lock1.. per run)."""
     found = {}
+    seen = set()
 
     def walk(o, depth):
+        if id(o) in seen:
+            return
+        seen.add(id(o))
         if isinstance(o, (sched.SimLock, sched.SimSemaphore)):
             found[o.name] = o
             return
-        if depth > 2:
+        if isinstance(o, sched.SimCondition):
+            walk(o.lock, depth)
+            return
+        if depth > 3:
+            return
+        if isinstance(o, (list, tuple)):
+            for v in o:
+                walk(v, depth + 1)
             return
         d = getattr(o, "__dict__", None)
         if d:
             for v in list(d.values()):
                 walk(v, depth + 1)
+        dfl = getattr(o, "__defaults__", None)
+        if dfl:
+            for v in dfl:
+                walk(v, depth + 1)
     walk(lock, 0)
-    return [found[k] for k in sorted(found)]
+    for v in list(ns.values()):
+        if isinstance(v, type) or isinstance(v, (sched.SimLock,
+                                                 sched.SimSemaphore)):
+            walk(v, 1)
+    return [found[k] for k in sorted(found, key=lambda n: (len(n), n))]
 
 
 def _saw_block(s):
